@@ -216,6 +216,14 @@ class _Opaque:
         self.n = n
 
 
+class _Unprintable:
+    """a caller-defined object that cannot be printed (a detached ORM instance, a closed resource): whatever logging the
+    guard does with the inquiry must not turn a decision into an exception"""
+    def __repr__(self):
+        raise RuntimeError('this object cannot be printed')
+    __str__ = __repr__
+
+
 def exotic_value(rng, depth=2):
     k = rng.randrange(16)
     if k == 0:
@@ -227,7 +235,7 @@ def exotic_value(rng, depth=2):
     if k == 3:
         return rng.choice([float('nan'), float('inf'), -0.0, 1e308, complex(1, 2)])
     if k == 4:
-        return _Opaque(rng.randint(0, 3))
+        return _Opaque(rng.randint(0, 3)) if rng.random() < 0.5 else _Unprintable()
     if k == 5:
         return {rng.choice([1, None, ('a',), 2.5, True, 'k']): rng.choice([1, 'v', None]) for _ in range(rng.randint(1, 3))}
     if k == 6:
